@@ -15,6 +15,22 @@ Theorem equal_terminates : forall D s t, exists b M,
   TcDeps.eq_ty (TcDeps.eq_fuel D s t) D (S (tsize s + tsize t)) s t [] = Ok (b, M).
 Proof. exact EqualProofs.equal_terminates. Qed.
 
+(* ... and with any outer fuel from eq_fuel upwards (the correspondence driver shares one fuel
+   between all pairs of a pool) *)
+Theorem equal_terminates_ge : forall D s t K, TcDeps.eq_fuel D s t <= K ->
+  exists b M, TcDeps.eq_ty K D (S (tsize s + tsize t)) s t [] = Ok (b, M).
+Proof. exact EqualProofs.equal_terminates_ge. Qed.
+
+(* whenever a run returns, with whatever fuel and initial memo, its answer is right *)
+Theorem eq_ty_sound_any : forall D k n s t M,
+  wf_env D = true -> wf_ty D s = true -> wf_ty D t = true ->
+  TcDeps.eq_ty k D n s t [] = Ok (true, M) -> Bisim D s t.
+Proof. exact EqualProofs.eq_ty_sound_any. Qed.
+Theorem eq_ty_complete_any : forall D k n s t M0 b M,
+  wf_env D = true -> wf_ty D s = true -> wf_ty D t = true ->
+  Bisim D s t -> TcDeps.eq_ty k D n s t M0 = Ok (b, M) -> b = true.
+Proof. exact EqualProofs.eq_ty_complete_any. Qed.
+
 Theorem equal_type_total : forall D s t, exists b, TcDeps.equal_type D s t = Ok b.
 Proof. exact EqualProofs.equal_type_total. Qed.
 
@@ -75,6 +91,9 @@ Theorem eq_ty_bridge : forall D k n s t M, TcDeps.eq_ty k D n s t M = Equal.eq_t
 Proof. exact EqualBridge.eq_ty_bridge. Qed.
 
 Print Assumptions equal_terminates.
+Print Assumptions equal_terminates_ge.
+Print Assumptions eq_ty_sound_any.
+Print Assumptions eq_ty_complete_any.
 Print Assumptions equal_sound.
 Print Assumptions equal_complete.
 Print Assumptions equal_type_iff.
